@@ -44,8 +44,9 @@
      gc      drop(b), O_b                           ↦ drop(z) for every channel z that O_b uses
              drop(ci), split(c1,c2,b)               ↦ proc(c_{3-i}, c_{3-i} ← b)
      split   proc(a, <x1,x2> <- split b; Q)         ↦ proc(a, Q[c1/x1][c2/x2]), split(c1,c2,b)  (c1,c2 fresh)   [contraction C]
-     copy    split(c1,c2,b), O_b                    ↦ O_b[c1,zs1/b,zs], O_b[c2,zs2/b,zs], split(zs1_i,zs2_i,zs_i)
-                                                      (zs the channels O_b uses, zs1 zs2 fresh)
+     copy    split(c1,c2,b), proc/msg(b, P)         ↦ proc/msg(c1, P[ns1/fns]), proc/msg(c2, P[ns2/fns]), split(ns1_i,ns2_i,fns_i)
+                                                      (fns the free names of P, ns1 ns2 fresh names, one pair per free name;
+                                                       the copied object is any term read by `obj`, so also a message)
 
    Identity.  [PP21] give identity by message RELAY (id⁺: msg(b,V), proc(a, a←b) ↦ msg(a,V);
    id⁻: proc(a, a←b), msg⁻(a,V) ↦ msg⁻(b,V)); cut elimination gives it by SUBSTITUTION
@@ -57,6 +58,13 @@
    same recipient, directly instead of after re-addressing).  The rule does not wait for O_b to be
    a message: the semantics is more permissive than any implementation needs, which is the right
    direction for "every implementation run is a SAX run".
+
+   History of this file: the linear rules are as first written.  Added later, conservatively (no
+   linear rule changed): `obj` reads the interpreter-internal term `fwd^drop self b` as drop(b); the
+   rule copy is stated with NAMES (the copied object is `obj b P`, the free names of P are replaced
+   by fresh names ns1 / ns2, one split per free name) instead of with a channel renaming, so that it
+   is literally what the interpreter's DUP does; split objects are binary (declarations with more
+   than two provider names are outside the proved refinement).
 
    Fresh channels are chosen by a side condition (`c ∉ cfg_cids`), binding is "named with freshness
    side conditions".  The structural rules do not check modes: a typed program only applies them to
@@ -103,6 +111,10 @@ Definition obj (a : cid) (P : form) : sobj :=
     else SProc a P
   | FFwd to from false =>
     if is_self to then match chan from with Some b => SFwd a b | None => SProc a P end else SProc a P
+  | FFwd to from true =>
+    (* `fwd^drop self b`: not source syntax — the term the interpreter creates for `drop b`; it IS the
+       pending weakening request on b (its own channel a is administrative: nobody refers to it) *)
+    if is_self to then match chan from with Some b => SDrop b | None => SProc a P end else SProc a P
   | _ => SProc a P
   end.
 
@@ -213,44 +225,21 @@ Definition unfold_call (F : list fundef) (fn : string) (args : list name) : opti
     else None
   end.
 
-(* renaming channels zs to zs' in an object (used by copy) *)
-Fixpoint rename_form (zs zs' : list cid) (P : form) : form :=
-  match zs, zs' with
-  | z :: r, z' :: r' => rename_form r r' (subst (chan_name z) (chan_name z') P)
+(* contraction copies the provider of b: in the i-th copy every free name fn of the term is replaced by
+   a fresh name (the fresh names of copy i: `ns`), one after the other *)
+Fixpoint subst_list (fns ns : list name) (P : form) : form :=
+  match fns, ns with
+  | fn :: fr, n :: nr => subst_list fr nr (subst fn n P)
   | _, _ => P
   end.
-Fixpoint rename_cid (zs zs' : list cid) (c : cid) : cid :=
-  match zs, zs' with
-  | z :: r, z' :: r' => if cid_eqb z c then z' else rename_cid r r' c
-  | _, _ => c
-  end.
-Definition rename_name (zs zs' : list cid) (n : name) : name :=
-  match chan n with
-  | Some c => mkName (ident n) (is_self n) (pol n) (nty n) (Some (rename_cid zs zs' c))
-  | None => n
-  end.
-Definition rename_pval (zs zs' : list cid) (V : pval) : pval :=
-  match V with
-  | VPair v w => VPair (rename_name zs zs' v) (rename_name zs zs' w)
-  | VLab l w => VLab l (rename_name zs zs' w)
-  | VUnit => VUnit
-  | VShift w => VShift (rename_name zs zs' w)
-  end.
-Definition rename_nval (zs zs' : list cid) (V : nval) : nval :=
-  match V with NPair v d => NPair (rename_name zs zs' v) d | _ => V end.
-(* only the client side is renamed; the provided channel is set by `reprovide` *)
-Definition rename_obj (zs zs' : list cid) (o : sobj) : sobj :=
-  match o with
-  | SProc a P => SProc a (rename_form zs zs' P)
-  | SMsgP a V => SMsgP a (rename_pval zs zs' V)
-  | SMsgN x V => SMsgN (rename_cid zs zs' x) (rename_nval zs zs' V)
-  | SFwd a b => SFwd a (rename_cid zs zs' b)
-  | SDrop b => SDrop (rename_cid zs zs' b)
-  | SSplit c1 c2 b => SSplit c1 c2 (rename_cid zs zs' b)
-  end.
-Fixpoint splits (zs1 zs2 zs : list cid) : list sobj :=
-  match zs1, zs2, zs with
-  | a :: r1, b :: r2, z :: r => SSplit a b z :: splits r1 r2 r
+(* ... and every channel the term used is split in turn between the two copies *)
+Fixpoint splits_of (ns1 ns2 fns : list name) : list sobj :=
+  match ns1, ns2, fns with
+  | n1 :: r1, n2 :: r2, fn :: r =>
+    match chan n1, chan n2, chan fn with
+    | Some z1, Some z2, Some z => [SSplit z1 z2 z]
+    | _, _, _ => []
+    end ++ splits_of r1 r2 r
   | _, _, _ => []
   end.
 
@@ -310,13 +299,14 @@ Inductive sred_str (Δ : sconfig) : list sobj -> list string -> list sobj -> Pro
     chan n1 = Some c1 -> chan n2 = Some c2 -> is_self n1 = false -> is_self n2 = false -> c1 <> c2 ->
     c1 ∉ cfg_cids (SProc a (FSplit x1 x2 y Q) :: Δ) -> c2 ∉ cfg_cids (SProc a (FSplit x1 x2 y Q) :: Δ) ->
     sred_str Δ [SProc a (FSplit x1 x2 y Q)] [] [obj a (subst x2 n2 (subst x1 n1 Q)); SSplit c1 c2 b]
-| s_copy c1 c2 b o zs1 zs2 :
-    provides o = Some b ->
-    let zs := obj_clients o in
-    length zs1 = length zs -> length zs2 = length zs -> NoDup (zs1 ++ zs2) ->
-    (forall z, z ∈ zs1 ++ zs2 -> z ∉ cfg_cids (SSplit c1 c2 b :: o :: Δ)) ->
-    sred_str Δ [SSplit c1 c2 b; o] []
-         (rename_obj zs zs1 (reprovide c1 o) :: rename_obj zs zs2 (reprovide c2 o) :: splits zs1 zs2 zs).
+| s_copy c1 c2 b P ns1 ns2 :
+    let fns := free_names P in
+    length ns1 = length fns -> length ns2 = length fns ->
+    Forall (fun n => is_self n = false /\ is_Some (chan n)) (ns1 ++ ns2) ->
+    NoDup (names_cids (ns1 ++ ns2)) ->
+    (forall z, z ∈ names_cids (ns1 ++ ns2) -> z ∉ cfg_cids (SSplit c1 c2 b :: obj b P :: Δ)) ->
+    sred_str Δ [SSplit c1 c2 b; obj b P] []
+         (obj c1 (subst_list fns ns1 P) :: obj c2 (subst_list fns ns2 P) :: splits_of ns1 ns2 fns).
 
 (* `str` = are the structural rules available (false: the linear fragment only) *)
 Definition sred (str : bool) (Δ : sconfig) (L : list sobj) (ls : list string) (R : list sobj) : Prop :=
